@@ -103,6 +103,21 @@ def routing_family(tier):
     build_harness()
     mc = tlc_model_check("routing", "Routing_MC.tla", "Routing_MC.cfg", workers=8, timeout=1500, xmx="8g", extra="")
     mc_cp = tlc_model_check("controlplane", "ControlPlane.tla", "ControlPlane_MC_%s.cfg" % tier, workers=8, timeout=3000, xmx="8g", extra="")
+    # Coord.tla: the control plane at call granularity (sync / migration / detection chains, call faults, crashes, restarts)
+    if not os.environ.get("VERIF_SKIP_MC"):
+        ccfgs = ["q_mig", "q_fo", "q_live_fo"] if tier == "quick" else ["q_mig", "q_fo", "q_live_fo", "q_live_mig", "t_mig", "t_all", "t_fo", "t_mig2", "t_faults2", "t_live_mig", "t_live_fo"]
+        cms = [tlc_model_check("coord_" + c, "Coord.tla", "Coord_MC_%s.cfg" % c, workers=8, timeout=900 if tier == "quick" else 5000, xmx="12g", extra="") for c in ccfgs]
+        for v in ("src_even_if_dst_failed", "no_quorum", "skip_cluster_on_old_repl"):
+            r = tlc_model_check("coord_bad_" + v, "Coord.tla", "Coord_MC_bad_%s.cfg" % v, workers=4, timeout=600, xmx="4g", extra="")
+            if r.get("ok") or not r.get("violated"):
+                raise ToolError("Coord design model accepts the seeded design error %s" % v)
+        mc_cp = {"name": "ControlPlane_MC_%s + Coord_MC[%s] + 3 seeded design errors of Coord.tla rejected" % (tier, ",".join(ccfgs)),
+                 "ok": mc_cp["ok"] and all(m["ok"] for m in cms), "wall_s": round(mc_cp["wall_s"] + sum(m["wall_s"] for m in cms), 1),
+                 "states": mc_cp.get("states", 0) + sum(m.get("states", 0) for m in cms),
+                 "transitions": mc_cp.get("transitions", 0) + sum(m.get("transitions", 0) for m in cms),
+                 "violated": next((m.get("violated") for m in [mc_cp] + cms if m.get("violated")), None),
+                 "parts": [{k: m.get(k) for k in ("name", "ok", "states", "transitions", "wall_s")} for m in [mc_cp] + cms],
+                 "out_tail": "\n".join(m.get("out_tail", "") for m in [mc_cp] + cms if not m["ok"])}
     d = fresh_dir(os.path.join(WORK, "routing_" + tier))
     parts = 8 if tier == "quick" else 10
     per = 4 if tier == "quick" else 50
@@ -122,6 +137,24 @@ def routing_family(tier):
     if rc != 0:
         raise ToolError("routing/ctl rig failed: " + out[-2000:])
     verdicts = validate_shards("Routing_Trace.tla", "Routing_Trace.cfg", files, jobs=14, timeout=3300)
+    # L2 for the control plane: the call logs of the ctl runs walked against the chain automata of Coord.tla
+    ctl_files = [f for f in files if os.path.basename(f).startswith("ctl_")]
+    l2v = validate_shards("Coord_Trace.tla", "Coord_Trace.cfg", ctl_files, jobs=14, timeout=3300)
+    l2 = {"steps": 0, "divergences": [], "divergence_count": 0, "runs": 0, "divergent_runs": 0}
+    for v in l2v:
+        if not v["consumed"]:
+            raise ToolError("Coord_Trace did not consume %s\n%s" % (v["shard"], v.get("tlc_tail", "")))
+        l2["steps"] += v.get("steps", 0)
+        lines = open(v["shard"]).read().splitlines()
+        starts = [i + 1 for i, x in enumerate(lines) if '"kind": "reset"' in x or '"kind":"reset"' in x]
+        l2["runs"] += len(starts)
+        bad_runs = set()
+        for x in v["div"]:
+            l2["divergence_count"] += 1
+            bad_runs.add(max([s0 for s0 in starts if s0 <= x["line"]] or [0]))
+            if len(l2["divergences"]) < 10:
+                l2["divergences"].append({"mon": x["mon"], "event": json.loads(lines[x["line"] - 1])})
+        l2["divergent_runs"] += len(bad_runs)
     viols, events, skipped = [], 0, 0
     for v in verdicts:
         events += v["n"]
@@ -188,7 +221,7 @@ def routing_family(tier):
     res = {"tier": tier, "seed": sd, "wall_s": time.time() - t0, "cases": sum(cases.values()), "cases_by_prop": cases,
            "runs": runs, "kinds": kinds, "phases": phases, "nontrivial": sum(nt.values()), "nontrivial_by_prop": nt,
            "skipped_unsynced": skipped, "samples_by_prop": samples,
-           "violations": viols[:300], "violation_count": len(viols), "samples": samples["C02"], "mc": mc, "mc_cp": mc_cp}
+           "violations": viols[:300], "violation_count": len(viols), "samples": samples["C02"], "mc": mc, "mc_cp": mc_cp, "l2_ctl": l2}
     for f in files:
         os.remove(f)
     cache_put(key, res)
